@@ -81,6 +81,23 @@ Definition tr_f9_vlog : list pevent :=
   [PE (Append (Vlog 1) (IV big3)); PE (SyncFile (Vlog 1))]
   ++ write_unit 1 [(big3, Some (mkVP 1 0))] true.
 
+(* A flush whose MANIFEST change set is (msync = true) / is NOT (msync = false) fsynced before
+   the flushed WAL is released, followed by a directory fsync that makes the WAL's removal
+   durable.  msync = false is what a change does that skips the fsync of manifest.go addChanges
+   for a create-only change set while the hook persist.manifest.done still fires: the C10
+   harness takes the SyncFile / SyncDir events of a trace from the system calls the process
+   really made (harness/strace.go), so this is the trace it then evaluates. *)
+Definition tr_flush_release (msync : bool) : list pevent :=
+  tr_rotate true true ++
+  [PE (Create (Sst 1)); PE (Init (Sst 1)); PE (Append (Sst 1) (IT k1v1)); PE (SyncFile (Sst 1)); PE SyncDir;
+   PE (Append Manifest (IM [MCreate 1 0]))]
+  ++ (if msync then [PE (SyncFile Manifest)] else [])
+  ++ [PE (Truncate0 (Wal 1)); PE (Unlink (Wal 1)); PE SyncDir].
+
+(* the file-system events of a trace, applied without the protocol guard *)
+Definition fs_events (tr : list pevent) : list event :=
+  flat_map (fun e => match e with PE x => [x] | _ => [] end) tr.
+
 (* zero-size log windows: killed between ftruncate(0) and unlink of a flushed WAL *)
 Definition tr_zero_wal_delete : list pevent :=
   tr_flush false ++ [PE (Truncate0 (Wal 1))].
